@@ -81,10 +81,11 @@ def hexQR (rings : Nat) : List (Int × Int) := (0, 0) :: (List.range rings).flat
 def makeHexGrid (s3 d : Rat) (rings : Nat) (pointy : Bool) (cx cy : Rat) : Grid :=
   let apothem := d * s3 / 4
   let qr := hexQR rings
-  -- (the centre is added after the axes have been exchanged for flat-topped hexagons: the code after the repair D86)
-  let x := fun (c : Rat) => qr.map fun p => ((-p.1 + p.2 : Int) : Rat) * d / 2 + c
-  let y := fun (c : Rat) => qr.map fun p => ((p.1 + p.2 : Int) : Rat) * apothem * 2 + c
-  { system := .cartesian, coords := .unstructured (if pointy then [x cx, y cy] else [y cx, x cy]),
+  -- (as the code has it: the centre is added BEFORE the axes are exchanged for flat-topped hexagons, so a flat-topped
+  -- grid is centred on `(cy, cx)` — observed, outside the properties; proposed repair pending_fixes/D86-…)
+  let x := qr.map fun p => ((-p.1 + p.2 : Int) : Rat) * d / 2 + cx
+  let y := qr.map fun p => ((p.1 + p.2 : Int) : Rat) * apothem * 2 + cy
+  { system := .cartesian, coords := .unstructured (if pointy then [x, y] else [y, x]),
     weights := .scalar (2 * (apothem * apothem) * s3) }
 
 /-- `make_pupil_grid(dims, diameter)`: the uniform grid of that extent around the origin -/
